@@ -17,6 +17,7 @@ import GeoProofs.Lemmas.C01QTypes
 import GeoProofs.Lemmas.C01QAreal
 import GeoProofs.Lemmas.C01QPoint
 import GeoProofs.Lemmas.C01QTriangle
+import GeoProofs.Lemmas.C01QLine
 import Mathlib.Tactic.NormNum
 
 namespace Geo.Proofs.C01
@@ -851,5 +852,49 @@ example : (relateSpec (.point ⟨0, 0⟩) (.line ⟨0, 0⟩ ⟨2, 2⟩)).str = "
   rw [relateSpec_point_line _ _ _ (by simp)]
   have : locate (.line ⟨0, 0⟩ ⟨2, 2⟩) ⟨0, 0⟩ = .onBoundary := by decide +kernel
   rw [this]; decide
+
+/-! ## 7. Spec adequacy (S1), restricted form: two segments against the point-set definition -/
+
+/-- [T] point location of a non-degenerate Line is the point-set one: interior = on the segment and not
+an end point. -/
+theorem locate_line_inside (a b p : Pt) (hab : a ≠ b) :
+    locate (.line a b) p = .inside ↔ Spec.SegInt p a b := Spec.locate_line_inside a b p hab
+
+/-- [T] between two different arrangement vertices on a segment there is an elementary sub-segment
+whose midpoint lies between them, is not a vertex and carries atoms (the arrangement atoms meet every
+open piece of a segment: the one-dimensional part of S1). -/
+theorem exists_atom_between (pa pb : Parts) {verts : List Pt} {a b x y : Pt} (hab : a ≠ b)
+    (hxv : x ∈ verts) (hyv : y ∈ verts) (hx : Geo.Proofs.Kernel.SegMem x a b) (hy : Geo.Proofs.Kernel.SegMem y a b)
+    (hxy : x ≠ y) :
+    ∃ m, Geo.Proofs.Kernel.SegMem m x y ∧ Geo.Proofs.Kernel.SegMem m a b ∧ m ∉ verts ∧
+      ∀ z, Spec.IsAtomAt pa pb a b m z → z ∈ segAtoms pa pb verts (a, b) :=
+  Spec.exists_atom_between pa pb hab hxv hyv hx hy hxy
+
+/-- [T] **Line × Line: II ≠ F iff the open segments share a point** (`cell_complete` for the cell II of
+two segments: single intersection point = arrangement vertex by `li_single_exact`; collinear overlap
+= a sub-segment midpoint inside the overlap by `li_collinear_exact`). -/
+theorem relateSpec_line_line_ii (a b c d : Pt) (hab : a ≠ b) (hcd : c ≠ d) :
+    (relateSpec (.line a b) (.line c d)).ii ≠ .empty ↔ ∃ p, Spec.SegInt p a b ∧ Spec.SegInt p c d :=
+  Spec.line_line_ii_ne_empty a b c d hab hcd
+
+/-- [T] **Line × Line: II = 1 iff the segments share more than one point** (they overlap). -/
+theorem relateSpec_line_line_ii_one (a b c d : Pt) (hab : a ≠ b) (hcd : c ≠ d) :
+    (relateSpec (.line a b) (.line c d)).ii = .one ↔
+      ∃ p q, p ≠ q ∧ Geo.Proofs.Kernel.SegMem p a b ∧ Geo.Proofs.Kernel.SegMem p c d ∧
+        Geo.Proofs.Kernel.SegMem q a b ∧ Geo.Proofs.Kernel.SegMem q c d :=
+  Spec.line_line_ii_one a b c d hab hcd
+
+/-- two crossing diagonals: II ≠ F; two overlapping collinear segments: II = 1 -/
+example : (relateSpec (.line ⟨0, 0⟩ ⟨2, 2⟩) (.line ⟨0, 2⟩ ⟨2, 0⟩)).ii ≠ .empty := by
+  rw [relateSpec_line_line_ii _ _ _ _ (by simp) (by simp)]
+  refine ⟨⟨1, 1⟩, ⟨⟨1/2, by norm_num, by norm_num, by norm_num, by norm_num⟩, by simp, by simp⟩,
+    ⟨⟨1/2, by norm_num, by norm_num, by norm_num, by norm_num⟩, by simp, by simp⟩⟩
+
+example : (relateSpec (.line ⟨0, 0⟩ ⟨2, 0⟩) (.line ⟨1, 0⟩ ⟨3, 0⟩)).ii = .one := by
+  rw [relateSpec_line_line_ii_one _ _ _ _ (by simp) (by simp)]
+  refine ⟨⟨1, 0⟩, ⟨2, 0⟩, by simp, ⟨1/2, by norm_num, by norm_num, by norm_num, by norm_num⟩,
+    ⟨0, by norm_num, by norm_num, by norm_num, by norm_num⟩,
+    ⟨1, by norm_num, by norm_num, by norm_num, by norm_num⟩,
+    ⟨1/2, by norm_num, by norm_num, by norm_num, by norm_num⟩⟩
 
 end Geo.Proofs.C01
